@@ -30,6 +30,33 @@ struct cbst { int n; size_t lens[MAXP]; int ending; int idx; };
 struct slot { struct MHD_Response *r; struct cbst cb; };
 static struct slot slots[NSLOT];
 
+/* response flags / flags_auto travel over the line protocol in a canonical numbering (strict=1 server=2
+   insanity=4 keepalive-hdr=8 head-only=16 ; conn=1 close=2 te=4 cl=8 date=16), independent of the enum values */
+static enum MHD_ResponseFlags c2rf (unsigned c)
+{
+  return (enum MHD_ResponseFlags) (((c & 1) ? MHD_RF_HTTP_1_0_COMPATIBLE_STRICT : 0) | ((c & 2) ? MHD_RF_HTTP_1_0_SERVER : 0)
+                                   | ((c & 4) ? MHD_RF_INSANITY_HEADER_CONTENT_LENGTH : 0) | ((c & 8) ? MHD_RF_SEND_KEEP_ALIVE_HEADER : 0)
+                                   | ((c & 16) ? MHD_RF_HEAD_ONLY_RESPONSE : 0));
+}
+static unsigned rf2c (enum MHD_ResponseFlags f)
+{
+  return ((f & MHD_RF_HTTP_1_0_COMPATIBLE_STRICT) ? 1u : 0) | ((f & MHD_RF_HTTP_1_0_SERVER) ? 2u : 0)
+         | ((f & MHD_RF_INSANITY_HEADER_CONTENT_LENGTH) ? 4u : 0) | ((f & MHD_RF_SEND_KEEP_ALIVE_HEADER) ? 8u : 0)
+         | ((f & MHD_RF_HEAD_ONLY_RESPONSE) ? 16u : 0);
+}
+static enum MHD_ResponseAutoFlags c2raf (unsigned c)
+{
+  return (enum MHD_ResponseAutoFlags) (((c & 1) ? MHD_RAF_HAS_CONNECTION_HDR : 0) | ((c & 2) ? MHD_RAF_HAS_CONNECTION_CLOSE : 0)
+                                       | ((c & 4) ? MHD_RAF_HAS_TRANS_ENC_CHUNKED : 0) | ((c & 8) ? MHD_RAF_HAS_CONTENT_LENGTH : 0)
+                                       | ((c & 16) ? MHD_RAF_HAS_DATE_HDR : 0));
+}
+static unsigned raf2c (enum MHD_ResponseAutoFlags f)
+{
+  return ((f & MHD_RAF_HAS_CONNECTION_HDR) ? 1u : 0) | ((f & MHD_RAF_HAS_CONNECTION_CLOSE) ? 2u : 0)
+         | ((f & MHD_RAF_HAS_TRANS_ENC_CHUNKED) ? 4u : 0) | ((f & MHD_RAF_HAS_CONTENT_LENGTH) ? 8u : 0)
+         | ((f & MHD_RAF_HAS_DATE_HDR) ? 16u : 0);
+}
+
 static unsigned char pat (size_t i) { return (unsigned char) (97 + (i * 7 + i / 26) % 26); }
 
 static ssize_t crc_cb (void *cls, uint64_t pos, char *buf, size_t max)
@@ -69,7 +96,7 @@ static enum MHD_Result dump_it (void *cls, enum MHD_ValueKind kind, const char *
 
 static void dump (enum MHD_Result ret, struct MHD_Response *r)
 {
-  printf ("ret=%d fa=%u fl=%u", (MHD_NO != ret) ? 1 : 0, (unsigned) r->flags_auto, (unsigned) r->flags);
+  printf ("ret=%d fa=%u fl=%u", (MHD_NO != ret) ? 1 : 0, raf2c (r->flags_auto), rf2c (r->flags));
   MHD_get_response_headers (r, &dump_it, NULL);
   putchar ('\n');
 }
@@ -213,7 +240,7 @@ int main (void)
   zpool = MHD_pool_create (64);
   (void) MHD_pool_allocate (zpool, MHD_pool_get_free (zpool), true);
   grid_r = MHD_create_response_empty (MHD_RF_NONE);
-  d = MHD_start_daemon (MHD_USE_NO_LISTEN_SOCKET | MHD_ALLOW_UPGRADE | MHD_USE_ERROR_LOG, 0, NULL, NULL, &ahc, NULL,
+  d = MHD_start_daemon (MHD_USE_NO_LISTEN_SOCKET | MHD_ALLOW_UPGRADE, 0, NULL, NULL, &ahc, NULL,
                         MHD_OPTION_CONNECTION_MEMORY_LIMIT, (size_t) 32768,
                         MHD_OPTION_END);
   if (!d || !zpool || !grid_r) { puts ("fault init"); return 2; }
@@ -266,7 +293,7 @@ int main (void)
       else if (l.n == 4 && !strcmp (l.w[2], "empty") && lp_u64 (l.w[3], &b) && b < 32)
       {
         slot_free (i);
-        slots[i].r = MHD_create_response_empty ((enum MHD_ResponseFlags) b);
+        slots[i].r = MHD_create_response_empty (c2rf ((unsigned) b));
         puts (slots[i].r ? "ok" : "fault new");
       }
       else if (l.n == 3 && !strcmp (l.w[2], "upg"))
@@ -290,7 +317,7 @@ int main (void)
     }
     else if (!strcmp (op, "opt") && l.n == 3 && lp_u64 (l.w[1], &a) && a < NSLOT && slots[a].r && lp_u64 (l.w[2], &b) && b < 32)
     {
-      enum MHD_Result r = MHD_set_response_options (slots[a].r, (enum MHD_ResponseFlags) b, MHD_RO_END);
+      enum MHD_Result r = MHD_set_response_options (slots[a].r, c2rf ((unsigned) b), MHD_RO_END);
       dump (r, slots[a].r);
     }
     /* ---------------- decision functions */
@@ -305,7 +332,7 @@ int main (void)
       {
         fc.keepalive = (enum MHD_ConnKeepAlive) ka; fc.read_closed = rc; fc.discard_request = dr;
         fc.rq.http_ver = (enum MHD_HTTP_Version) ver; fc.rq.http_mthd = MHD_HTTP_MTHD_GET;
-        grid_r->flags = (enum MHD_ResponseFlags) (i / 32); grid_r->flags_auto = (enum MHD_ResponseAutoFlags) (i % 32);
+        grid_r->flags = c2rf (i / 32); grid_r->flags_auto = c2raf (i % 32);
         grid_r->upgrade_handler = upg ? &upg_cb : NULL;
         out[i] = (char) ('0' + (int) keepalive_possible (&fc) + 1);
       }
@@ -337,7 +364,7 @@ int main (void)
         fc.keepalive = (enum MHD_ConnKeepAlive) ka; fc.read_closed = rc; fc.discard_request = dr;
         fc.rq.http_ver = (enum MHD_HTTP_Version) ver; fc.rq.http_mthd = (enum MHD_HTTP_Method) m;
         fc.rp.responseCode = (unsigned) b;
-        grid_r->flags = (enum MHD_ResponseFlags) (i / 32); grid_r->flags_auto = (enum MHD_ResponseAutoFlags) (i % 32);
+        grid_r->flags = c2rf (i / 32); grid_r->flags_auto = c2raf (i % 32);
         grid_r->upgrade_handler = upg ? &upg_cb : NULL; grid_r->total_size = size;
         setup_reply_properties (&fc);
         out[i] = props_char ();
@@ -443,6 +470,42 @@ int main (void)
       if (MHD_NO == r) puts ("NO");
       else { printf ("out="); lp_puthex (stdout, fc.write_buffer, fc.write_buffer_append_offset); putchar ('\n'); }
       free (fc.write_buffer);
+    }
+    /* ---------------- the token helpers of mhd_str.c used by the response code */
+    else if (!strcmp (op, "rt") && l.n == 3)
+    {
+      size_t sl, tl; uint8_t *sb = lp_unhex (l.w[1], &sl), *tb = lp_unhex (l.w[2], &tl);
+      if (!sb || !tb || 0 == tl) { puts ("bad-op"); free (sb); free (tb); continue; }
+      {
+        ssize_t bs = (ssize_t) (sl + sl / 2 + 1);
+        char *out = (char *) malloc ((size_t) bs);
+        bool r = MHD_str_remove_token_caseless_ ((const char *) sb, sl, (const char *) tb, tl, out, &bs);
+        if (bs < 0) puts ("toosmall");
+        else { printf ("r=%d out=", r ? 1 : 0); lp_puthex (stdout, out, (size_t) bs); putchar ('\n'); }
+        free (out);
+      }
+      free (sb); free (tb);
+    }
+    else if (!strcmp (op, "rts") && l.n == 3)
+    {
+      size_t sl, tl; uint8_t *sb = lp_unhex (l.w[1], &sl), *tb = lp_unhex (l.w[2], &tl);
+      if (!sb || !tb) { puts ("bad-op"); free (sb); free (tb); continue; }
+      {
+        char *buf = (char *) malloc (sl + 1);   /* as in response.c: value_size + 1 */
+        size_t len = sl; bool r;
+        memcpy (buf, sb, sl); buf[sl] = 0;
+        r = MHD_str_remove_tokens_caseless_ (buf, &len, (const char *) tb, tl);
+        printf ("r=%d out=", r ? 1 : 0); lp_puthex (stdout, buf, len); putchar ('\n');
+        free (buf);
+      }
+      free (sb); free (tb);
+    }
+    else if (!strcmp (op, "ht") && l.n == 3)
+    {
+      char *sv = hexstr (l.w[1]); size_t tl; uint8_t *tb = lp_unhex (l.w[2], &tl);
+      if (!sv || !tb || 0 == tl) { puts ("bad-op"); free (sv); free (tb); continue; }
+      puts (MHD_str_has_token_caseless_ (sv, (const char *) tb, tl) ? "1" : "0");
+      free (sv); free (tb);
     }
     /* ---------------- complete exchange through the real daemon */
     else if (!strcmp (op, "x") && l.n == 8)
